@@ -14,7 +14,7 @@ todo = []
 for d in sorted(glob.glob('/verif/seeded/*')):
     m = json.load(open(d + '/meta.json'))
     by = ' '.join(m.get('detected_by') or [])
-    if 'UNDETECTED' in by or os.path.basename(d) in DONE:
+    if 'UNDETECTED' in by or 'NEUTRALISED' in by or os.path.basename(d) in DONE:
         continue
     mm = re.search(r'C\d\d', by)
     prop = mm.group(0) if mm else os.path.basename(d)[:3]
